@@ -18,6 +18,7 @@ import (
 	"pault.ag/go/debian/control"
 	"pault.ag/go/debian/verifhook"
 
+	"verifharness/gen"
 	"verifharness/mc"
 	"verifharness/props/reg"
 )
@@ -44,11 +45,16 @@ func (in In) ctlName() string {
 	return ctlBase + ".dsc"
 }
 
+var auditSizes []int64 // file sizes from the alphabet audit, given to the .asc / part files
+
 // content of a referenced file; the .orig tarball is larger than two copy buffers, so its copy takes several writes
 func content(name string) string {
 	n := 3000
 	if strings.Contains(name, ".orig.tar.gz") && !strings.HasSuffix(name, ".asc") {
 		n = 70000
+	}
+	if len(auditSizes) > 0 && (strings.HasSuffix(name, ".asc") || strings.Contains(name, ".part")) {
+		n = int(auditSizes[len(name)%len(auditSizes)])
 	}
 	return "content of " + name + "\n" + strings.Repeat("x", n) + "\nend\n"
 }
@@ -468,6 +474,18 @@ func Run(r *mc.Run) {
 	shapes := []string{"sub/x.tar", "../x.tar", "../../x.tar", "/abs/x.tar", "./x.tar",
 		// sibling directories whose names merely START with the name of the control file's directory / of the destination
 		"../src-keys/x.tar", "../srcx.tar", "../dst-old/x.tar", "sub/../../src2/x.tar"}
+	// alphabet audit: names and numbers a change introduced into the code become file names, file counts and file sizes
+	for _, t := range gen.AuditStrings(func(s string) bool { return gen.OneLine(s) && !strings.ContainsAny(s, " \t") }, 3) {
+		shapes = append(shapes, t, "x"+t, t+".tar", "../"+t)
+	}
+	for _, n := range gen.AuditInts(2, 12, 3) {
+		var names []string
+		for k := int64(0); k < n; k++ {
+			names = append(names, fmt.Sprintf("hello_1.0.part%d.tar.gz", k))
+		}
+		plain = append(plain, names)
+	}
+	auditSizes = gen.AuditInts(0, 1<<22, 4)
 	var bases []In
 	for _, kind := range []string{"dsc", "changes"} {
 		for _, op := range []string{"copy", "move", "remove"} {
